@@ -140,8 +140,8 @@ def check_case(case) -> Outcome:
     try:
         mm = model_matrix(s, train, output=output, ensure_full_rank=efr, cluster_by="numerical_factors" if case.get("cluster") else "none")
     except Exception as e:
-        if "no data points are available for knot selection" in str(e):
-            # explicit spline bounds that exclude every training value: the fit is rightly refused
+        if "no data points are available for knot selection" in str(e) or "distinct knots" in str(e):
+            # explicit spline bounds that exclude (nearly) every training value: the fit is rightly refused
             out.rejected = True
             out.label("rejected:no-training-data-within-bounds")
             return out
